@@ -9,10 +9,9 @@ git -C /repo worktree add -q --detach $WT HEAD || exit 3
 trap "git -C /repo worktree remove --force $WT" EXIT
 cd $WT
 cp $D/demo.py $WT/_demo.py
-sed -i '1i import sys, os; sys.path.insert(0, os.getcwd())' $WT/_demo.py
-/venv/bin/python _demo.py >/dev/null 2>&1; a=$?
+PYTHONPATH=$WT /venv/bin/python _demo.py >/dev/null 2>&1; a=$?
 git apply $D/patch.diff || { echo "PATCH-DOES-NOT-APPLY"; exit 3; }
-/venv/bin/python _demo.py > _demo.out 2>&1; b=$?
+PYTHONPATH=$WT /venv/bin/python _demo.py > _demo.out 2>&1; b=$?
 t=$(/venv/bin/python -m pytest -q -p no:cacheprovider -x 2>&1 | tail -1)
 echo "demo without=$a with=$b tests: $t"
 echo "demo says: $(tail -2 _demo.out | tr '\n' ' ')"
